@@ -39,6 +39,9 @@ static const char* scripts[][3] = {
     {"PoP", "oPo", ""},    // 2
     {"PPPP", "oooo", ""},  // 3: slot reuse with capacity 2
     {"PP", "PP", "ooo"},   // 4: two pushers racing for the same slot
+    {"Po", "o", "Po"},     // 5: a popper stalled before clearing its slot + a popper holding a stale `high` + a third party
+    {"Po", "oo", "PoP"},   // 6
+    {"PoP", "o", "oP"},    // 7
 };
 
 static void* body(void* p) {
